@@ -256,7 +256,7 @@ def conclude(pid, tier, seed, mod, agg):
         inconclusive_reasons.append("pandapipes imported from %s" % agg["pandapipes_file"])
 
     # replay files for new violations, one per mechanism tag (first witness), plus a count
-    replay_dir = os.path.join(ROOT, "replays")
+    replay_dir = os.environ.get("VERIF_REPLAY_DIR") or os.path.join(ROOT, "replays")
     lines = []
     by_tag = {}
     for v in new:
